@@ -101,6 +101,34 @@ theorem legalLine_of (f : File) (b : Blk) (hb : b ∈ fileBlks f) (m : Nat) (h1 
   simp only [Bool.and_eq_true, decide_eq_true_eq, Bool.or_eq_true, beq_iff_eq, List.contains_iff_mem]
   exact ⟨⟨h1, h2⟩, h3⟩
 
+/-- a forced insert lands exactly on the first boundary of its block -/
+theorem force_target_eq (env : Env) (f : File) (hc : env.comments = commentArray f.lineCodes)
+    (b : Blk) (hok : blkOK f b = true) (hlt : b.lo < b.hi)
+    (fuel r : Nat) (h : skipComments env fuel (b.lo + 1) = .ok r) : r = b.firstBoundary := by
+  obtain ⟨f1, f2, f3, f4⟩ := firstBoundary_facts f b hok hlt
+  have hsz := blk_hi_le f b hok hlt
+  have hs := skipComments_spec env fuel _ r h
+  have hfirst := skipComments_first env fuel _ r h
+  rcases Nat.lt_trichotomy r b.firstBoundary with hlt' | heq | hgt
+  · have hg := gap_comment f b hok hlt r (by omega) hlt'
+    have := isComment_of_codes env f hc r (by omega) (by omega)
+    rw [hs.1, hg] at this; cases this
+  · exact heq
+  · have := hfirst b.firstBoundary (by omega) hgt
+    have h2 := isComment_of_codes env f hc b.firstBoundary (by omega) (by omega)
+    rw [this, f3] at h2; cases h2
+
+/-- a checked insert on a statement line of a block stays on that line -/
+theorem check_target_eq (env : Env) (f : File) (hc : env.comments = commentArray f.lineCodes)
+    (b : Blk) (hok : blkOK f b = true) (hlt : b.lo < b.hi)
+    (l : Nat) (hl : l ∈ b.lines) (fuel r : Nat) (h : skipComments env (fuel+1) l = .ok r) : r = l := by
+  obtain ⟨g1, g2, g3⟩ := blk_line_facts f b hok hlt l hl
+  have hsz := blk_hi_le f b hok hlt
+  have hcm := isComment_of_codes env f hc l (by omega) (by omega)
+  rw [g3] at hcm
+  rw [skipComments_id env fuel l hcm] at h
+  cases h; rfl
+
 /-- **a forced insert lands on the first boundary of its block** -/
 theorem force_target_legal (env : Env) (f : File) (hc : env.comments = commentArray f.lineCodes)
     (b : Blk) (hb : b ∈ fileBlks f) (hok : blkOK f b = true) (hlt : b.lo < b.hi)
